@@ -1280,6 +1280,10 @@ func (e *fnEnc) ret(st *state, v *ssa.Return) {
 		}
 	}
 	for i, en := range e.fc.Ensures {
+		if en.Ghost {
+			e.V.Assumed[fmt.Sprintf("ghost naming clause of %s: [%s] %s", funcKey(e.fn), en.Label, en.Src)] = true
+			continue
+		}
 		t := env.evalBool(en.Expr)
 		o := e.oblige(st, "ensures", fmt.Sprintf("[%s]", labelOr(en.Label, i)), v.Pos(), t)
 		o.Quantified = strings.Contains(t, "forall") || strings.Contains(t, "exists")
